@@ -156,11 +156,14 @@ def symarr(name, dims, extra=(), unit=None):
 
 
 UNIT_ATOMS = {'micron', 'cm', 'm', 'kpc', 'pc', 'au', 'AU', 'Hz', 'mJy', 'Jy', 'erg', 's', 'g', 'kg', 'W', 'arcsec',
-              'deg', 'rad', 'nm', 'mm', 'km', 'angstrom', 'AA', 'GHz', 'MHz', 'yr'}
+              'deg', 'rad', 'nm', 'mm', 'km', 'angstrom', 'AA', 'GHz', 'MHz', 'yr', 'arcmin', 'mas', 'Angstrom', 'um', 'THz', 'kHz', 'Mpc', 'lyr', 'uJy', 'MJy'}
+
+
+UNIT_ALIASES = {'AU': 'au', 'um': 'micron', 'Angstrom': 'angstrom', 'AA': 'angstrom'}
 
 
 def unit_atom(name):
-    return alg.sym('unit:' + ('au' if name == 'AU' else name))
+    return alg.sym('unit:' + UNIT_ALIASES.get(name, name))
 
 
 class Interp:
@@ -465,6 +468,13 @@ class Interp:
             return Pinned(itv.mask.dims[0], itv.mask.poly)
         if isinstance(itv, _Range):
             return Pinned(itv.label) if itv.label else None
+        if isinstance(itv, _Zip):
+            inners = [self._generic_iter(x, st) for x in itv.inners]
+            if all(isinstance(x, list) for x in inners):
+                return [tuple(r) for r in zip(*inners)]
+            if any(x is None or isinstance(x, list) for x in inners):
+                return None
+            return tuple(inners)             # the generic elements of each, at the same position of the shared axis
         if isinstance(itv, _Enumerate):
             inner = self._generic_iter(itv.inner, st)
             if isinstance(inner, list):
@@ -851,7 +861,7 @@ class Interp:
                 return out
             if gen is not None:
                 self.store(g.target, gen, sub, mod)
-                lab = itv.label if isinstance(itv, (GenList, _Range, _Enumerate)) else (itv.dims[0] if isinstance(itv, Arr) else None)
+                lab = itv.label if isinstance(itv, (GenList, _Range, _Enumerate, _Zip)) else (itv.dims[0] if isinstance(itv, Arr) else None)
                 return GenList(lab, self.expr(e.elt, sub, mod))
             return Unk('list comprehension over %s' % up(g.iter)[:50], e)
         if isinstance(e, ast.JoinedStr):
@@ -1552,6 +1562,22 @@ class Interp:
                     if lab:
                         return _Range(lab)
                 return Unk('range%r' % (tuple(args),), e)
+            if last == 'zip' and len(args) >= 2 and not kw:
+                if all(isinstance(x, (list, tuple)) for x in args):
+                    return [tuple(r) for r in zip(*args)]
+                labs = set()
+                for x in args:
+                    if isinstance(x, GenList):
+                        labs.add(x.label)
+                    elif isinstance(x, Arr) and x.ndim >= 1 and x.dims[0]:
+                        labs.add(x.dims[0])
+                    elif isinstance(x, _Range) and x.label:
+                        labs.add(x.label)
+                    else:
+                        return Unk('zip of %r' % (x,), e)
+                if len(labs) != 1:
+                    return Unk('zip of sequences indexed by different axes %s' % sorted(map(str, labs)), e)
+                return _Zip(list(args), labs.pop())
             if last == 'enumerate':
                 x = args[0]
                 if isinstance(x, (list, tuple)):
@@ -1787,6 +1813,11 @@ class _WhereIdx:
 
     def sel_label(self):
         return 'sel:' + alg.show(self.mask.poly, 400)
+
+
+class _Zip:
+    def __init__(self, inners, label):
+        self.inners, self.label = inners, label
 
 
 class _Enumerate:
